@@ -1,6 +1,7 @@
 package props
 
 import (
+	"github.com/nlnwa/whatwg-url/url"
 	"strings"
 
 	"pgregory.net/rapid"
@@ -90,6 +91,7 @@ func Check18(c Case18, r *core.Rec) {
 		r.NT()
 	}
 	canon := func(x string) (string, error) {
+		interfereProfile(p, x)
 		u, err := p.Parse(x)
 		if err != nil || u == nil {
 			return "", err
@@ -198,3 +200,17 @@ var P18 = core.Register(core.Prop[Case18]{
 	Gen:   Gen18,
 	Check: Check18,
 })
+
+// interfereProfile has the same profile canonicalize the byte-identical text under a scheme of the
+// other class (and a host setter on that value) just before the call under test: what a profile
+// returns must not depend on what it was asked before (caches keyed without everything the result
+// depends on). The predefined profiles are shared values, so this is how they are used anyway.
+func interfereProfile(p url.Parser, x string) {
+	i := strings.IndexByte(x, ':')
+	if i < 0 {
+		return
+	}
+	if u, err := p.Parse("git" + x[i:]); err == nil && u != nil {
+		u.SetHostname(u.Hostname())
+	}
+}
